@@ -17,14 +17,25 @@ WORDS = ["hello", "affinity", "office", "Wörld", "naïve", "ကောင်း"
          "กำไร", " ", "", "abc def ghi", "گرافیت", "پاکستان", "éèê", "�퟿", "T̥̄o"]
 
 
+ATTACH_HEAVY = ("attach", "attach", "attach", "next", "next", "delete", "put_copy", "insert")
+
+
 def heap_lines(r, n):
     lines = []
-    for _ in range(n):
+    for k in range(n):
         ns = r.randrange(1, 9)
         ctxt = r.randrange(0, min(3, ns))
         start = r.randrange(ctxt, ns)
         win = r.randrange(1, min(6, ns - (start - ctxt)) + 1)
-        prog, kinds = heapgen.gen_action(r, ctxt, win)
+        if k % 3 == 2:
+            # attachment-heavy stream: several slots attached to the same parent, re-attached, deleted
+            ns = r.randrange(3, 9)
+            ctxt = r.randrange(0, 2)
+            start = ctxt
+            win = r.randrange(3, min(6, ns) + 1)
+            prog, kinds = heapgen.gen_action(r, ctxt, win, max_ops=18, allow=ATTACH_HEAVY)
+        else:
+            prog, kinds = heapgen.gen_action(r, ctxt, win)
         lines.append("heap %d %d %d %d %d %d %d %s" % (r.choice([0, 1]), r.choice([100, 2, 1, 5]), ns, start, ctxt, win, r.choice([-1, start, 0]), lib.hexs(prog)))
     return lines
 
